@@ -144,7 +144,8 @@ def class_rule(ctx, crate):
 # character-class predicates: the characters they accept (as far as the rule needs them).  Only the
 # whitespace family is decided: a blank is a word separator for the tokenizer whatever branch tests it.
 _UNI_WS = "\t\n\x0b\x0c\r \x85\xa0\u1680" + "".join(chr(c) for c in range(0x2000, 0x200b)) + "\u2028\u2029\u202f\u205f\u3000"
-PRED_SETS = {"is_whitespace": _UNI_WS, "is_ascii_whitespace": "\t\n\x0c\r "}
+PRED_SETS = {"is_whitespace": _UNI_WS, "is_ascii_whitespace": "\t\n\x0c\r ", "is_line_end": "\n\r"}
+SPLITTERS = {"split_whitespace": "is_whitespace", "split_ascii_whitespace": "is_ascii_whitespace", "lines": "is_line_end"}
 TOKENIZERS = ("parsers::parser_line::parse_line", "parsers::parser_line::line_to_cmds")
 
 
@@ -180,6 +181,25 @@ def char_tests(b):
     return eqs, preds
 
 
+def splitter_preds(crate, b):
+    """word-splitting library calls made by the tokenizer or by the local helpers it builds its result with (one level
+    of local callees returning the token list): they split at their whole character family"""
+    out = {}
+    scope = [b]
+    for bb, t, c in b.calls():
+        ci = b.callee_info(t)
+        if ci is not None and ci.get("local"):
+            cb = crate.fn(ci["resolved"])
+            if cb is not None and cb not in scope and "LineInfo" in b.locals[t["dest"]["l"]]["ty"]:
+                scope.append(cb)
+    for fb in scope:
+        for bb, t, c in fb.calls():
+            ls = last_seg(c)
+            if ls in SPLITTERS and "str" in c:
+                out.setdefault("%s (via %s in %s)" % (SPLITTERS[ls], ls, fb.path.split("::")[-1]), fb.loc(bb))
+    return out
+
+
 def tokenizer_rule(ctx, crate, cls):
     n = 0
     for p in TOKENIZERS:
@@ -194,8 +214,9 @@ def tokenizer_rule(ctx, crate, cls):
             ctx.ob("R20-4", p, "tokenizer tests the character it reads against %r: the escaper covers it" % ch, ok,
                    key="R20-4|%s|eq|%s" % (p, ch), where=where, crate=crate.kind,
                    detail=None if ok else "a completed name containing %r is inserted unescaped and split / re-read there" % ch)
+        preds.update({k: v for k, v in splitter_preds(crate, b).items() if k not in preds})
         for name, where in sorted(preds.items()):
-            accepted = PRED_SETS.get(name)
+            accepted = PRED_SETS.get(name.split(" (via")[0])
             if accepted is None:
                 ctx.notes.append("R20-4: %s applies the class test %s to a character; not decided (only the whitespace "
                                  "family is)" % (p, name))
